@@ -158,9 +158,16 @@ def _history(ctx, gd, rng, steps, edits=True):
     g = gg.to_nx(gd)
     fz0 = freeze_graph(g)
     nodes = gd["nodes"]
+    # a few vertex sets are asked again and again over the history (a memo keyed by the arguments answers the second
+    # time - after an edit it must answer for the edited graph)
+    favourites = [rng.sample(nodes, rng.randint(1, len(nodes))) for _ in range(3)]
     for _ in range(steps):
-        op = rng.choice(SET_OPS + ("districts", "moralize", "disorient", "topological_sort", "paths"))
-        S = _vars(rng.sample(nodes, rng.randint(0, len(nodes))))
+        op = rng.choice(SET_OPS + ("districts", "moralize", "disorient", "topological_sort", "paths") +
+                        ("ancestors_inclusive", "descendants_inclusive", "get_markov_pillow"))
+        if rng.random() < 0.6:
+            S = _vars([n for n in rng.choice(favourites) if n in nodes])
+        else:
+            S = _vars(rng.sample(nodes, rng.randint(0, len(nodes))))
         kernel.LOG.reset_case({"graph": gd, "op": "history:" + op, "S": sorted(map(str, S))})
         try:
             if op in SET_OPS:
@@ -176,7 +183,7 @@ def _history(ctx, gd, rng, steps, edits=True):
         if res is not None:
             _probe_alias(g, res, op)
         ctx.case(f"H|{gg.key(gd)}|{op}|{sorted(map(str, S))}", bool(gd["di"] or gd["bi"]) and bool(S))
-        if edits and rng.random() < 0.25 and gg._acyclic(gd["nodes"], gd["di"]):
+        if edits and rng.random() < 0.3 and gg._acyclic(gd["nodes"], gd["di"]):
             # the caller edits its own graph object in place: later results must reflect the edited graph
             if freeze_graph(g) != fz0:
                 kernel.violation(PROP, "receiver-unchanged", "graph changed over a call history")
@@ -235,7 +242,7 @@ def run_shard(ctx):
             apply_ops(ctx, gd, rng.sample(gd["nodes"], rng.randint(1, 4)), True, ops=big_ops)
     ctx.extras["graphs_with_more_than_32_directed_edges"] = nbig
     # 3. histories
-    for _ in range(ctx.share({"quick": 64, "thorough": 1600}[ctx.tier])):
+    for _ in range(ctx.share({"quick": 240, "thorough": 3000}[ctx.tier])):
         gd = gg.random_admg(rng, rng.randint(3, 7))
         _history(ctx, gd, rng, 30)
 
